@@ -196,16 +196,20 @@ Definition is_broken (e : ending) : bool := match e with Broken _ => true | _ =>
 
 Record ctl_view := { cv_acted : list sact; cv_hard : list N; cv_soft : list N; cv_closed : list N; cv_broken : bool }.
 
-Definition control_view (r : srole) (rest : bytes) (e : ending) : ctl_view :=
-  let '(ts, t) := frame_outcome uni_scheck rest e in
+(* [sc] decides whether the contents of a SETTINGS payload are acceptable (Spec/Frames.v) *)
+Definition control_view_with (sc : bytes -> option settings_err) (r : srole) (rest : bytes) (e : ending) : ctl_view :=
+  let '(ts, t) := frame_outcome sc rest e in
   let '(a, h, s) := ctl_scan r cs_init ts t in
   {| cv_acted := a; cv_hard := h; cv_soft := s;
      (* a stream that has ended is closed whatever it carried before: failing with that code is never wrong *)
      cv_closed := if ended e then [E_CLOSED_CRITICAL] else [];
      cv_broken := is_broken e |}.
 
-Definition controls (r : srole) (h : list sdesc) : list ctl_view :=
-  flat_map (fun s => match classify_stream s with ScControl rest => [control_view r rest (sd_end s)] | _ => [] end) h.
+Definition control_view := control_view_with uni_scheck.
+
+Definition controls_with (sc : bytes -> option settings_err) (r : srole) (h : list sdesc) : list ctl_view :=
+  flat_map (fun s => match classify_stream s with ScControl rest => [control_view_with sc r rest (sd_end s)] | _ => [] end) h.
+Definition controls := controls_with uni_scheck.
 Definition count_class (p : sclass -> bool) (h : list sdesc) : nat := length (filter (fun s => p (classify_stream s)) h).
 Definition is_control c := match c with ScControl _ => true | _ => false end.
 Definition is_encoder c := match c with ScEncoder => true | _ => false end.
@@ -236,8 +240,8 @@ Record hspec := {
 
 Definition nonempty {A} (l : list A) : bool := match l with [] => false | _ => true end.
 
-Definition uni_spec (r : srole) (h : list sdesc) : hspec :=
-  let cs := controls r h in
+Definition uni_spec_with (sc : bytes -> option settings_err) (r : srole) (h : list sdesc) : hspec :=
+  let cs := controls_with sc r h in
   let dup := duplicates h in
   let hard := dup ++ flat_map cv_hard cs in
   let other := flat_map (stream_soft r) h in
@@ -252,7 +256,12 @@ Definition uni_spec (r : srole) (h : list sdesc) : hspec :=
      hs_any := match cs with _ :: _ :: _ => true | _ => false end;
      hs_stops := flat_map (fun s => match classify_stream s with ScUnknown _ => [sd_id s] | _ => [] end) h |}.
 
+(* with the SETTINGS contents rule of C13's specification *)
+Definition uni_spec := uni_spec_with uni_scheck.
+
 (* the connection may fail with these codes and no other *)
-Definition allowed_errors (r : srole) (h : list sdesc) : list N := hs_hard (uni_spec r h) ++ hs_soft (uni_spec r h).
+Definition allowed_errors_with (sc : bytes -> option settings_err) (r : srole) (h : list sdesc) : list N :=
+  hs_hard (uni_spec_with sc r h) ++ hs_soft (uni_spec_with sc r h).
+Definition allowed_errors := allowed_errors_with uni_scheck.
 (* a violation the statement lists is complete: an endpoint that has processed everything delivered has failed *)
 Definition must_fail (r : srole) (h : list sdesc) : bool := nonempty (hs_hard (uni_spec r h)).
